@@ -4,6 +4,7 @@ the real policy displaces, so the tie does not depend on LRU/PLRU details); orac
 from __future__ import annotations
 from core import Case, Failure
 import dcgen
+import rvgen
 import impl as implmod
 
 PROP = "C03"
@@ -22,6 +23,15 @@ def cases(rng, tier):
     n = 350 if tier == "quick" else 5000
     for _ in range(n):
         yield dcgen.gen_case(rng, forced=True)
+    # whole programs on simulations BUILT FROM OPTIONS (the way the front end builds them), both modes: with any data cache the
+    # results are those of the run without cache — incl. address computations that leave the 32-bit range
+    for i in range(60 if tier == "quick" else 1500):
+        mode = "five" if i % 2 else "single"
+        d = rvgen.penalty_cache_spec(rng, "d") if i % 3 else rvgen.cache_spec(rng, "d", 1.0)
+        if i % 2 == 0 or i % 3 == 0:
+            yield rvgen.wrap_case(rng, mode, trace=8, dspec=d, suite="sim-dcache-prog")
+        else:
+            yield rvgen.sim_case(rng, mode, hazard=True, opts={"aligned": True}, trace=8, run=500, dprob=1.0, iprob=0.0, suite="sim-dcache-prog")
     # the F6 corner: a block that starts below the data base
     for bb in ((12, 13) if tier == "quick" else (11, 12, 13, 14)):
         for ty in ("wt", "wb"):
@@ -42,6 +52,8 @@ def cases(rng, tier):
 
 
 def nontrivial(c):
+    if c.suite == "sim-dcache-prog":
+        return "\n".join(c.lines[:2])
     ev = sum(1 for l in c.lines if l.startswith("dc.r") or l.startswith("dc.w"))
     return "\n".join(c.lines) if ev >= 3 else None
 
@@ -55,8 +67,31 @@ def measure(c, stats):
             stats.bump(kind + ("-rejected" if o.startswith("E") else ""))
 
 
+def _prog_oracle(c):
+    """the program with the data cache vs the same program without, same mode: registers, output, exit code, counts, fault"""
+    import props.c02 as c02
+    new = next((l for l in c.lines if l.startswith("sim.new")), None)
+    if new is None or new.split()[3] == "-":
+        return []
+    mode = new.split()[1]
+    a = c02.run_mode(c, mode, True, limit=3000)
+    b = c02.run_mode(c, mode, True, limit=3000, nocache=True)
+    fa, fb = a["fault"], b["fault"]
+    if (fa is None) != (fb is None):
+        # a cache may reject what flat memory accepts only for accesses that cross a word (the generators here emit none)
+        return [Failure("oracle", PROP, f"with the data cache the program {'faults: ' + fa[:80] if fa else 'runs through'}, without it {'faults: ' + fb[:80] if fb else 'runs through'} ({mode})", "dcache-prog:fault-differs")]
+    if a["done"] != b["done"]:
+        return []
+    for k in ("regs", "out", "exit", "ins", "br", "pr"):
+        if a["d"][k] != b["d"][k]:
+            return [Failure("oracle", PROP, f"{k} differs with the data cache enabled ({mode})", "dcache-prog:changes-result")]
+    return []
+
+
 def oracle(c):
     """Real cache system vs real flat Memory on the same history."""
+    if c.suite == "sim-dcache-prog":
+        return _prog_oracle(c)
     fails = []
     im = implmod.Impl()
     flat = implmod.riscv_memory()
